@@ -116,7 +116,8 @@ def run_check(pid, tier, seed, replay=None, repeat=1):
         # time-outs: inconclusive once, re-run; a second time-out is a hang witness
         tmo = [cid for cid, r in recs.items() if r.get('timeout')]
         inconclusive = []
-        for cid in tmo:
+        runner.n_timeouts = 0; runner.max_timeouts = 10 ** 9
+        for cid in tmo[:3]:           # three confirmations are enough; the others stay single time-outs
             m = meta_of[cid]
             exe = bins[m['variant']][m['prec']]
             r2 = runner.run_batch(exe, [recs[cid]['case']], True, m.get('env'), m.get('wrapper'), m.get('timeout_scale', 1.0))
